@@ -122,6 +122,7 @@ type RunStats struct {
 	PendingAddGone   int // replacement/invalidation of a value whose add task was still unprocessed
 	StatsChecks      int
 	SaveLoads        int
+	Bursts           int
 	SaveLoadExpired  int
 	SaveLoadSurvivor int
 	Kinds            []string
@@ -247,6 +248,16 @@ func (r *Runner) fail(f Facet, format string, args ...any) error {
 		return &Violation{Facet: f, Step: r.step, Msg: msg}
 	}
 	return ErrAbort
+}
+
+// failFirst reports under the first enabled facet of the list (a disagreement can contradict several properties).
+func (r *Runner) failFirst(fs []Facet, format string, args ...any) error {
+	for _, f := range fs {
+		if r.Facets&f != 0 {
+			return r.fail(f, format, args...)
+		}
+	}
+	return r.fail(fs[0], format, args...)
 }
 
 // retFacet: a wrong return value on an expired-unswept key is also a
@@ -447,6 +458,20 @@ func (r *Runner) total() uint64 {
 	return t
 }
 
+func (r *Runner) totalNotSweepable() uint64 {
+	var t uint64
+	now := r.now()
+	for _, e := range r.M {
+		if r.Cfg.Expiry != ExpNone && !e.ExpInf && !e.Shortened {
+			if d, of := SatAdd(e.Exp, Tick); !of && d < now && e.WrittenAt < now-Tick {
+				continue
+			}
+		}
+		t += uint64(e.W)
+	}
+	return t
+}
+
 func (r *Runner) noteTotal() {
 	if r.Cfg.Bound == BoundNone {
 		return
@@ -502,7 +527,7 @@ func (r *Runner) reconcile() error {
 			return r.fail(FEvents, "OnAtomicDeletion %v: this value was never installed", ev)
 		}
 		if cur != nil && cur.Val == ev.Val {
-			return r.fail(FEvents, "OnAtomicDeletion %v: value is still the current value and nothing removed it", ev)
+			return r.failFirst([]Facet{FEvents, FContents}, "OnAtomicDeletion %v: the value was the current value of its key and no operation removed or replaced it", ev)
 		}
 		return r.fail(FEvents, "OnAtomicDeletion %v: unexpected (value was not current)", ev)
 	}
@@ -522,7 +547,7 @@ func (r *Runner) reconcile() error {
 	}
 	if len(r.expAtomic) > 0 {
 		for _, p := range r.expAtomic {
-			return r.fail(FEvents, "value (%d,%d) stopped being current (%s) but OnAtomicDeletion was not invoked", p.key, p.val, p.cause)
+			return r.failFirst([]Facet{FEvents, FContents}, "value (%d,%d) stopped being current (%s) but OnAtomicDeletion was not invoked", p.key, p.val, p.cause)
 		}
 	}
 	if r.Cfg.Executor == ExecInline && len(r.expAsync) > 0 {
@@ -551,7 +576,9 @@ func (r *Runner) autoRemove(ev Ev, cur *MEntry) error {
 			return r.fail(FJustify, "Overflow reported for zero-weight entry %v", ev)
 		}
 		if r.Cfg.Executor == ExecInline {
-			t := r.total()
+			// Entries that expired more than one tick ago must be swept by the maintenance run before it
+			// evicts anything for size (C13), so they cannot justify an Overflow.
+			t := r.totalNotSweepable()
 			if r.multi && r.stepWeightBound > t {
 				t = r.stepWeightBound
 			}
@@ -850,7 +877,7 @@ func (r *Runner) Step(i int, a *Action) (err error) {
 	r.step = i
 	r.cur = a
 	r.loaderCalls = r.loaderCalls[:0]
-	r.multi = a.Op == "bulkget" || a.Op == "bulkrefresh" || a.Op == "runtasks" || a.Op == "quiesce" || a.Op == "invalidateall"
+	r.multi = a.Op == "burst" || a.Op == "bulkget" || a.Op == "bulkrefresh" || a.Op == "runtasks" || a.Op == "quiesce" || a.Op == "invalidateall"
 	r.stepWeightBound = r.total()
 	r.autoRemovedStep = map[int]bool{}
 	r.St.Ops++
@@ -1320,6 +1347,35 @@ func (r *Runner) Step(i int, a *Action) (err error) {
 		if err = r.applyDeferredLoads(); err != nil {
 			return err
 		}
+
+	case "burst":
+		// many writes without giving the executor a chance: fills the write buffer (caller-runs fallback)
+		n := a.N
+		if n <= 0 {
+			n = 2200
+		}
+		span := 40 + a.Sel%60
+		var berr error
+		call(func() {
+			for j := 0; j < n; j++ {
+				kk := 100 + j%span
+				v := r.newVal(a)
+				c.Set(kk, v)
+				r.modelWrite(kk, v, false)
+				// the caller-runs fallback may evict in the middle of the burst: reconcile write by write
+				if berr = r.reconcile(); berr != nil {
+					return
+				}
+			}
+		})
+		if err = unexpectedPanic(); err != nil {
+			return err
+		}
+		if berr != nil {
+			return berr
+		}
+		r.takeHooks()
+		r.St.Bursts++
 
 	case "quiesce":
 		if err = r.Quiesce(); err != nil {
